@@ -255,6 +255,9 @@ def input_terms(v, heap, out):
         out.extend(v.terms)
     elif isinstance(v, (SInt, SBool, SSeq)):
         out.append(v.t)
+        if isinstance(v, SSeq) and v.attrs:
+            for x in v.attrs.values():
+                input_terms(x, heap, out)
     elif isinstance(v, Ref) and heap is not None and v.id in heap:
         c = heap[v.id]
         if isinstance(c, StreamCell):
@@ -301,7 +304,10 @@ def term_to_py(m, v, heap=None):
         ints = m.seq(v.t)
         if issubclass(v.cls, str):
             return ''.join(chr(x % 0x110000) for x in ints)
-        return {'__bytes__': [x % 256 for x in ints], 'cls': v.cls.__module__ + ':' + v.cls.__qualname__}
+        d = {'__bytes__': [x % 256 for x in ints], 'cls': v.cls.__module__ + ':' + v.cls.__qualname__}
+        if v.attrs:
+            d['attrs'] = {k: term_to_py(m, x, heap) for k, x in v.attrs.items()}
+        return d
     if isinstance(v, (int, str, bool, type(None), float)):
         return v
     if isinstance(v, bytes):
@@ -501,6 +507,9 @@ class ContractUse(object):
                     I.havoc_cell(v, nm, pshapes.get(nm))
             if d == 0:
                 res = None
+                if pc.ret is None and any(isinstance(x, ast.Name) and x.id == 'result'
+                                          for e in pc.ensures for x in ast.walk(e)):
+                    raise OutOfReach('contract %s is used at a call site but declares no return shape' % self.cdef.name)
                 if pc.ret is not None:
                     I.pure -= 1
                     try:
@@ -518,6 +527,10 @@ class ContractUse(object):
                         I.st.notes.append('dropped callee postcondition: %s' % ast.unparse(e))
                         continue
                     I.assume(z3.BoolVal(bt) if isinstance(bt, bool) else bt)
+                # vacuity guard: assumed postconditions must not contradict the caller's state
+                if I.query(I.st.pc, z3.BoolVal(True), 3000) == z3.unsat:
+                    raise OutOfReach('postcondition of %s[%s] is inconsistent with the call state'
+                                     % (self.cdef.target, self.cdef.name))
                 return res
             cls_n, when, ens = pc.raises[d - 1]
             cls = I.eval(cls_n)
@@ -626,7 +639,14 @@ def run_unit(cdef, config=None, callee_contracts=None):
             except PathEnd:
                 pass
             except OutOfReach as e:
-                reasons.append(str(e))
+                # feasibility checks are over-approximated: a construct outside the subset on a
+                # path that does not exist is not a reason to give up
+                try:
+                    dead = I.query(I.st.pc, z3.BoolVal(True), 4000) == z3.unsat
+                except Exception:
+                    dead = False
+                if not dead:
+                    reasons.append(str(e))
             except RecursionError:
                 reasons.append('recursion limit in interpreter')
             for ob in I.st.obligations:
